@@ -205,3 +205,39 @@ func TokenSeq(vocab []string, slots []int) string {
 	}
 	return s
 }
+
+// MarkShared (engine) records the heap reachable from the package-level state
+// of the code under test and from vals; natively a no-op.
+func MarkShared(vals ...any) {}
+
+// SharedWrites (engine) lists shared locations written since the mark outside
+// once-only initialisation; natively unknown (nil).
+func SharedWrites() []string { return nil }
+
+// OnceWrites (engine) counts writes performed inside sync.Once initialisers since the mark.
+func OnceWrites() int { return 0 }
+
+// ResetWriteLog clears the write log.
+func ResetWriteLog() {}
+
+// Par runs f and g concurrently. In the engine every interleaving at the
+// granularity of visible operations is explored and the locations of data
+// races (conflicting accesses unordered by happens-before) are returned;
+// natively two goroutines run and the race detector of a -race build reports.
+func Par(f, g func()) []string {
+	done := make(chan any, 2)
+	run := func(h func()) {
+		defer func() { done <- recover() }()
+		h()
+	}
+	go run(f)
+	go run(g)
+	a, b := <-done, <-done
+	if a != nil {
+		panic(a)
+	}
+	if b != nil {
+		panic(b)
+	}
+	return nil
+}
